@@ -277,6 +277,8 @@ def check_case(prop: str, oracle, case, result: ShardResult, to_json=lambda c: c
 def _worker(args):
     modname, spec = args
     t0 = time.time()
+    if spec.get("python") == "-O" and not sys.flags.optimize:
+        return _worker_optimized(modname, spec, t0)
     try:
         mod = importlib.import_module(modname)
         if spec.get("loglevel") == "DEBUG":
@@ -303,6 +305,48 @@ def _worker(args):
         return ("harness", spec, f"{exc}\n{traceback.format_exc()}", time.time() - t0)
     except BaseException as exc:
         return ("harness", spec, f"{type(exc).__name__}: {exc}\n{traceback.format_exc()}", time.time() - t0)
+
+
+_OPT_CHILD = """
+import logging, pickle, sys, warnings
+logging.disable(logging.CRITICAL)
+warnings.filterwarnings("ignore")
+from rnaverif import runner
+with open(sys.argv[1], "rb") as f:
+    args = pickle.load(f)
+out = runner._worker(args)
+with open(sys.argv[2], "wb") as f:
+    pickle.dump(out, f)
+"""
+
+
+def _worker_optimized(modname, spec, t0):
+    """the shard in an interpreter started with -O (assert statements and `if __debug__` blocks are not executed, as in
+    many container images and under PYTHONOPTIMIZE=1): what the library returns must not rest on an assert"""
+    import pickle
+    import subprocess
+
+    os.makedirs(WORK_DIR, exist_ok=True)
+    base = os.path.join(WORK_DIR, f"opt_{os.getpid()}_{abs(hash(json.dumps(spec, sort_keys=True, default=str))) % 10 ** 9}")
+    try:
+        with open(base + ".in", "wb") as f:
+            pickle.dump((modname, spec), f)
+        env = dict(os.environ)
+        env.pop("PYTHONOPTIMIZE", None)
+        p = subprocess.run([sys.executable, "-O", "-c", _OPT_CHILD, base + ".in", base + ".out"], env=env, capture_output=True, text=True)
+        if p.returncode != 0 or not os.path.exists(base + ".out"):
+            return ("harness", spec, f"-O child failed (rc {p.returncode}): {(p.stderr or p.stdout)[-800:]}", time.time() - t0)
+        with open(base + ".out", "rb") as f:
+            out = pickle.load(f)
+        if out[0] == "ok":
+            out[2].extra["shards_under_python_O"] = out[2].extra.get("shards_under_python_O", 0) + 1
+        return out
+    finally:
+        for ext in (".in", ".out"):
+            try:
+                os.remove(base + ext)
+            except OSError:
+                pass
 
 
 def validate_evidence(ev: dict) -> None:
@@ -413,6 +457,8 @@ def main(argv=None) -> int:
     # a configuration every property quantifies over implicitly: the library's log level. Every fourth shard of every
     # check runs with debug logging switched on (output discarded); answers must not depend on it
     for i, sp in enumerate(specs):
+        if i % 8 == 5 and "python" not in sp:
+            sp["python"] = "-O"
         if i % 4 == 3 and "loglevel" not in sp:
             sp["loglevel"] = "DEBUG"
 
